@@ -659,6 +659,56 @@ pub fn f64_trunc_i128(x: f64) -> i128 {
     }
 }
 
+/// |count| * m * 2^e truncated toward zero, by schoolbook multiplication on 32-bit limbs
+/// (independent of any 128-bit splitting trick). None when the result is >= 2^127.
+pub fn big_mul_shift(mag: u128, m: u64, e: i32) -> Option<u128> {
+    let a: Vec<u64> = (0..4).map(|i| ((mag >> (32 * i)) & 0xffff_ffff) as u64).collect();
+    let b: Vec<u64> = (0..2).map(|i| (m >> (32 * i)) & 0xffff_ffff).collect();
+    let mut c = vec![0u64; 8];
+    for i in 0..4 {
+        let mut carry = 0u64;
+        for j in 0..2 {
+            let t = c[i + j] + a[i] * b[j] + carry;
+            c[i + j] = t & 0xffff_ffff;
+            carry = t >> 32;
+        }
+        let mut k = i + 2;
+        while carry != 0 {
+            let t = c[k] + carry;
+            c[k] = t & 0xffff_ffff;
+            carry = t >> 32;
+            k += 1;
+        }
+    }
+    // bit i of the product
+    let bit = |i: i64| -> u128 {
+        if i < 0 || i >= 256 {
+            0
+        } else {
+            ((c[(i / 32) as usize] >> (i % 32)) & 1) as u128
+        }
+    };
+    // result bit j = product bit (j - e)
+    for j in 127..(256 + e.max(0) as i64) {
+        if bit(j - e as i64) != 0 {
+            return None;
+        }
+    }
+    let mut r = 0u128;
+    for j in 0..127i64 {
+        r |= bit(j - e as i64) << j;
+    }
+    Some(r)
+}
+
+/// exact count * q truncated toward zero (None: magnitude >= 2^127)
+pub fn mul_f64_trunc(cnt: i128, q: f64) -> Option<i128> {
+    let (m, e) = f64_parts(q);
+    let r = big_mul_shift(cnt.unsigned_abs(), m.unsigned_abs(), e)?;
+    let neg = (cnt < 0) != (m < 0);
+    Some(if neg { -(r as i128) } else { r as i128 })
+}
+
 // ------------------------------------------------------------------ self test of the oracle
 
 /// Cross-checks inside the model (run at harness start-up). Returns a description on failure.
@@ -727,6 +777,9 @@ pub fn self_test() -> Result<(), String> {
     }
     if (rational_to_f64(1, 3) - 1.0 / 3.0).abs() > 1e-17 {
         return Err("rational_to_f64".into());
+    }
+    if mul_f64_trunc(7, 0.5) != Some(3) || mul_f64_trunc(-7, 0.5) != Some(-3) || mul_f64_trunc(1 << 100, 1024.0) != Some(1 << 110) || mul_f64_trunc(1 << 100, 2f64.powi(27)) != None || mul_f64_trunc(3, 1e-300) != Some(0) || mul_f64_trunc(DMAX, 1.0) != Some(DMAX) || mul_f64_trunc(1_000_000_007, 1e9) != Some(1_000_000_007_000_000_000) {
+        return Err("mul_f64_trunc".into());
     }
     // abs_err_vs_rational: exact cases and a tiny negative fraction
     if abs_err_vs_rational(0.5, 1, 2) != 0.0 || abs_err_vs_rational(-0.25, -1, 4) != 0.0 || abs_err_vs_rational(1e20, 100_000_000_000_000_000_000, 1) != 0.0 {
